@@ -154,3 +154,25 @@ pub fn check(inp: &SyntaxNode, out: &SyntaxNode) -> Result<usize, (String, Strin
     }
     Ok(a.comments.len())
 }
+
+/// With import reordering on the items (words) of a comment-free import may change places, so only what the
+/// statement says about the comments themselves is compared: none lost, none gained, same order, same text.
+pub fn check_order_only(inp: &SyntaxNode, out: &SyntaxNode) -> Result<usize, (String, String)> {
+    let a = collect(inp);
+    let b = collect(out);
+    if a.comments.len() != b.comments.len() {
+        return Err((
+            format!("C06:reorder-on:count:{}", if a.comments.len() > b.comments.len() { "lost" } else { "gained" }),
+            format!("with import reordering on: {} comments in, {} out", a.comments.len(), b.comments.len()),
+        ));
+    }
+    for (i, (x, y)) in a.comments.iter().zip(b.comments.iter()).enumerate() {
+        if x.line != y.line || x.text != y.text {
+            return Err((
+                "C06:reorder-on:order-or-text".into(),
+                format!("with import reordering on: comment #{i} is {:?} in the input and {:?} in the output (reordered or reworded)", x.text, y.text),
+            ));
+        }
+    }
+    Ok(a.comments.len())
+}
